@@ -109,7 +109,7 @@ Proof.
 Qed.
 
 (** to_f32_fast / to_f64_fast on the main branch: the pattern is the correctly rounded one of the
-    approximate quotient  man * 2^exponent  (man = the truncated 2K-bit numerator over the truncated
+    approximate quotient  man * 2^exponent  (man = the shifted 2K-bit numerator over the truncated
     K-bit denominator, rounded to nearest even) *)
 Theorem rat_to_float_fast_main N D : N <> 0 -> 0 < D ->
   let '(man, ex) := fast_quotient P N D in
@@ -122,7 +122,7 @@ Proof.
   destruct (Z.eqb_spec N 0) as [|_]; [contradiction|].
   set (K := MB P + 1).
   set (ns := blen (Z.abs N) - 2 * K). set (ds := blen D - K).
-  set (numK := if 0 <=? ns then Z.abs N / 2 ^ ns else Z.abs N * 2 ^ (- ns)).
+  set (numK := if 0 <=? ns then Z.abs (N / 2 ^ ns) else Z.abs N * 2 ^ (- ns)).
   set (denK := if 0 <=? ds then D / 2 ^ ds else D * 2 ^ (- ds)).
   intros Hov Hun.
   destruct (Z.geb_spec (ns - ds) (TOP_MAX P)) as [G|_]; [lia|].
@@ -133,11 +133,14 @@ Proof.
   destruct (blen_bounds (Z.abs N) ltac:(lia)) as [[N1 N2] N3].
   destruct (blen_bounds D HD) as [[D1 D2] D3].
   assert (HK : 2 <= K) by (unfold K; lia).
-  assert (HnumK : 0 <= numK < 2 ^ (2 * K)).
+  assert (HnumK : 0 <= numK <= 2 ^ (2 * K)).
   { unfold numK. destruct (Z.leb_spec 0 ns) as [Hs|Hs].
-    - pose proof (pow2_pos ns Hs). split; [apply Z.div_pos; lia|].
-      apply Z.div_lt_upper_bound; [lia|]. rewrite <- pow2_split by lia.
-      replace (ns + 2 * K) with (blen (Z.abs N)) by (unfold ns; lia). lia.
+    - pose proof (pow2_pos ns Hs) as Pns. split; [lia|].
+      assert (E : 2 ^ blen (Z.abs N) = 2 ^ (2 * K) * 2 ^ ns).
+      { rewrite <- pow2_split by lia. f_equal. unfold ns. lia. }
+      pose proof (Z.div_mod N (2 ^ ns) ltac:(lia)) as Edm. pose proof (Z.mod_pos_bound N (2 ^ ns) Pns) as Bm.
+      pose proof (pow2_pos (2 * K) ltac:(lia)).
+      destruct (Z.abs_spec (N / 2 ^ ns)) as [[? ->]|[? ->]]; nia.
     - pose proof (pow2_pos (- ns) ltac:(lia)). split; [nia|].
       replace (2 * K) with (blen (Z.abs N) + - ns) by (unfold ns; lia). rewrite pow2_split by lia. nia. }
   assert (HdenK : 2 ^ (K - 1) <= denK).
@@ -147,11 +150,12 @@ Proof.
     - pose proof (pow2_pos (- ds) ltac:(lia)).
       replace (K - 1) with (blen D - 1 + - ds) by (unfold ds; lia). rewrite pow2_split by lia. nia. }
   pose proof (pow2_pos (K - 1) ltac:(lia)) as PK1.
-  assert (Hq : 0 <= numK / denK < 2 ^ (K + 1)).
-  { split; [apply Z.div_pos; lia|]. apply Z.div_lt_upper_bound; [lia|].
+  assert (Hq : 0 <= numK / denK <= 2 ^ (K + 1)).
+  { split; [apply Z.div_pos; lia|].
     replace (2 * K) with ((K - 1) + (K + 1)) in HnumK by lia. rewrite pow2_split in HnumK by lia.
-    pose proof (pow2_pos (K + 1) ltac:(lia)). nia. }
-  assert (Hman : 0 <= man <= 2 ^ (K + 1)).
+    pose proof (pow2_pos (K + 1) ltac:(lia)).
+    assert (numK / denK < 2 ^ (K + 1) + 1); [|lia]. apply Z.div_lt_upper_bound; [lia|]. nia. }
+  assert (Hman : 0 <= man <= 2 ^ (K + 1) + 1).
   { unfold man. destruct (_ || _); lia. }
   assert (Hbl : blen (Z.abs (if N <? 0 then - man else man)) <= W P).
   { assert (E : Z.abs (if N <? 0 then - man else man) = man) by (destruct (N <? 0); lia). rewrite E.
@@ -160,7 +164,8 @@ Proof.
     destruct (Z.le_gt_cases (blen man) (K + 2)) as [|G]; [unfold K in *; lia|].
     assert (2 ^ (K + 2) <= 2 ^ (blen man - 1)) by (apply Z.pow_le_mono_r; lia).
     assert (E2 : 2 ^ (K + 2) = 2 * 2 ^ (K + 1)) by (replace (K + 2) with (K + 1 + 1) by lia; apply pow2_succ; lia).
-    pose proof (pow2_pos (K + 1) ltac:(lia)). lia. }
+    assert (E3 : 2 ^ (K + 1) = 2 * 2 ^ K) by (apply pow2_succ; lia).
+    pose proof (pow2_pos K ltac:(lia)). lia. }
   fold man. rewrite (encode_correct P HMB HW HB HBp HT HU HN _ _ Hbl). reflexivity.
 Qed.
 
@@ -217,3 +222,194 @@ Example two_step_examples :
   two_step P32 MHalfEven (2 ^ 25 + 23) (-153) = FR (2 ^ 21 + 2) (Some NoOp) /\
   two_step P64 MDown (2 ^ 60 + 1) 0 = FR 4877398396442247168 (Some NoOp).
 Proof. vm_compute. repeat split; reflexivity. Qed.
+
+(* ------------------------------------------------------------------ error of the fast quotient *)
+
+(** to_f32_fast / to_f64_fast: the approximate quotient man * 2^ex lies within (-1, +4.5) units of
+    its own last place of the exact |N| / D (man has K or K+1 bits, K = 24 / 53), for every numerator
+    and denominator: a proved bound for the "bounded error" half of the contract.  Integer form:
+    (2 man - 9) * D * 2^ex < 2 |N| < (2 man + 2) * D * 2^ex, cross-multiplied when ex < 0. *)
+Section FastBound.
+Variable K : Z.
+Hypothesis HK : 2 <= K.
+
+Lemma fast_core numK denK man A S Dd T :
+  0 < S -> 0 < T -> 0 < A -> 2 ^ (K - 1) <= denK -> 0 <= numK <= 2 ^ (2 * K) ->
+  (numK - 1) * S < A < (numK + 1) * S ->
+  denK * T <= Dd < (denK + 1) * T ->
+  (2 * man - 1) * denK <= 2 * numK <= (2 * man + 1) * denK -> 0 <= man ->
+  (2 * man - 9) * (Dd * S) < 2 * (A * T) < (2 * man + 2) * (Dd * S).
+Proof.
+  intros HS HT HA Hden Hnum [A1 A2] [D1 D2] [M1 M2] Hman.
+  pose proof (pow2_pos (K - 1) ltac:(lia)) as PK.
+  assert (Hd2 : 2 <= denK).
+  { assert (2 <= 2 ^ (K - 1)); [|lia]. replace (K - 1) with (K - 2 + 1) by lia. rewrite pow2_succ by lia.
+    pose proof (pow2_pos (K - 2) ltac:(lia)). lia. }
+  assert (HST : 0 < S * T) by (apply Z.mul_pos_pos; lia).
+  assert (HDd : 0 < Dd) by (assert (0 < denK * T) by (apply Z.mul_pos_pos; lia); lia).
+  (* man is at most 2^(K+1) + 1, so 2 man <= 8 denK + 2 *)
+  assert (Hmb : 2 * man <= 8 * denK + 2).
+  { assert (E : 2 ^ (2 * K) = 2 ^ (K + 1) * 2 ^ (K - 1)) by (rewrite <- pow2_split by lia; f_equal; lia).
+    assert (E2 : 2 ^ (K + 1) = 4 * 2 ^ (K - 1)).
+    { replace (K + 1) with (K - 1 + 1 + 1) by lia. rewrite !pow2_succ by lia. ring. }
+    assert ((2 * man - 1) * denK <= 2 * (2 ^ (K + 1) * 2 ^ (K - 1))) by lia.
+    destruct (Z.le_gt_cases (2 * man) (8 * denK + 2)) as [|G]; [assumption|exfalso].
+    assert (H1 : (8 * denK + 2) * denK <= (2 * man - 1) * denK) by (apply Z.mul_le_mono_nonneg_r; lia).
+    assert (H2 : 2 ^ (K - 1) * 2 ^ (K - 1) <= denK * denK) by (apply Z.mul_le_mono_nonneg; lia).
+    rewrite E2 in H. lia. }
+  split.
+  - (* lower *)
+    destruct (Z.le_gt_cases (2 * man - 9) 0) as [Hn|Hp].
+    + assert (0 < A * T) by (apply Z.mul_pos_pos; lia).
+      assert ((2 * man - 9) * (Dd * S) <= 0) by (apply Z.mul_nonpos_nonneg; [lia | apply Z.mul_nonneg_nonneg; lia]). lia.
+    + assert (L1 : 2 * ((numK - 1) * S) * T < 2 * A * T) by (apply Z.mul_lt_mono_pos_r; lia).
+      assert (L2 : (2 * man - 9) * (Dd * S) < (2 * man - 9) * ((denK + 1) * T * S)).
+      { apply Z.mul_lt_mono_pos_l; [lia|]. apply Z.mul_lt_mono_pos_r; lia. }
+      assert (L3 : (2 * man - 9) * (denK + 1) <= (2 * man - 1) * denK - 2) by lia.
+      assert (L4 : (2 * man - 9) * (denK + 1) * (S * T) <= ((2 * man - 1) * denK - 2) * (S * T))
+        by (apply Z.mul_le_mono_nonneg_r; lia).
+      assert (L5 : ((2 * man - 1) * denK - 2) * (S * T) <= (2 * numK - 2) * (S * T))
+        by (apply Z.mul_le_mono_nonneg_r; lia).
+      lia.
+  - (* upper *)
+    assert (U1 : 2 * A * T < 2 * ((numK + 1) * S) * T) by (apply Z.mul_lt_mono_pos_r; lia).
+    assert (U2 : (2 * numK + 2) * (S * T) <= ((2 * man + 1) * denK + denK) * (S * T))
+      by (apply Z.mul_le_mono_nonneg_r; lia).
+    assert (U3 : (2 * man + 2) * (denK * T * S) <= (2 * man + 2) * (Dd * S)).
+    { apply Z.mul_le_mono_nonneg_l; [lia|]. apply Z.mul_le_mono_nonneg_r; lia. }
+    lia.
+Qed.
+End FastBound.
+
+(** pieces with small contexts (a fresh build has no lia/nia certificate cache) *)
+Lemma abs_div_bracket N c : 0 < c ->
+  (Z.abs (N / c) - 1) * c < Z.abs N < (Z.abs (N / c) + 1) * c.
+Proof.
+  intros Hc. pose proof (Z.div_mod N c ltac:(lia)) as Edm. pose proof (Z.mod_pos_bound N c Hc) as Bm.
+  set (q := N / c) in *. set (r := N mod c) in *.
+  assert (F1 : 0 <= q -> 0 <= c * q) by (intros; apply Z.mul_nonneg_nonneg; lia).
+  assert (F2 : q <= -1 -> c * q <= - c) by (intros; assert (c * q <= c * (-1)) by (apply Z.mul_le_mono_nonneg_l; lia); lia).
+  clearbody q r. lia.
+Qed.
+
+Lemma div_bracket D c : 0 < c -> D / c * c <= D < (D / c + 1) * c.
+Proof.
+  intros Hc. pose proof (Z.div_mod D c ltac:(lia)) as Edm. pose proof (Z.mod_pos_bound D c Hc) as Bm.
+  set (q := D / c) in *. set (r := D mod c) in *. clearbody q r. lia.
+Qed.
+
+Lemma rne_quot_bracket numK denK : 0 <= numK -> 0 < denK ->
+  let man := if (2 * (numK mod denK) >? denK) || ((2 * (numK mod denK) =? denK) && Z.odd (numK / denK))
+             then numK / denK + 1 else numK / denK in
+  (2 * man - 1) * denK <= 2 * numK <= (2 * man + 1) * denK /\ 0 <= man.
+Proof.
+  intros Hn Hd. cbv zeta.
+  pose proof (Z.div_mod numK denK ltac:(lia)) as Edm. pose proof (Z.mod_pos_bound numK denK Hd) as Bm.
+  assert (Hq : 0 <= numK / denK) by (apply Z.div_pos; lia).
+  set (q := numK / denK) in *. set (r := numK mod denK) in *. clearbody q r.
+  destruct (Z.gtb_spec (2 * r) denK); cbn [orb]; [lia|].
+  destruct (Z.eqb_spec (2 * r) denK); cbn [andb]; [destruct (Z.odd q)|]; lia.
+Qed.
+
+Lemma fast_pow_id1 ns ds : 0 <= ns - ds ->
+  2 ^ Z.max (- ns) 0 * 2 ^ Z.max ds 0 * 2 ^ (ns - ds) = 2 ^ Z.max (- ds) 0 * 2 ^ Z.max ns 0.
+Proof. intros. rewrite <- !pow2_split by lia. f_equal. lia. Qed.
+
+Lemma fast_pow_id2 ns ds : ns - ds < 0 ->
+  2 ^ Z.max (- ns) 0 * 2 ^ Z.max ds 0 = 2 ^ (- (ns - ds)) * 2 ^ Z.max (- ds) 0 * 2 ^ Z.max ns 0.
+Proof. intros. rewrite <- !pow2_split by lia. f_equal. lia. Qed.
+
+Lemma scale_back k1 k2 X Y c a : 0 < Y -> X * c = a * Y ->
+  k1 * Y < 2 * X < k2 * Y -> 0 < c -> k1 * c < 2 * a < k2 * c.
+Proof.
+  intros HY E [L U] Hc.
+  assert (L' : k1 * Y * c < 2 * X * c) by (apply Z.mul_lt_mono_pos_r; lia).
+  assert (U' : 2 * X * c < k2 * Y * c) by (apply Z.mul_lt_mono_pos_r; lia).
+  split; apply (Z.mul_lt_mono_pos_r Y); lia.
+Qed.
+
+Theorem fast_quotient_bound P N D : 1 <= MB P -> N <> 0 -> 0 < D ->
+  let '(man, ex) := fast_quotient P N D in
+  if 0 <=? ex then (2 * man - 9) * (D * 2 ^ ex) < 2 * Z.abs N < (2 * man + 2) * (D * 2 ^ ex)
+  else (2 * man - 9) * D < 2 * Z.abs N * 2 ^ (- ex) < (2 * man + 2) * D.
+Proof.
+  intros HMB HN0 HD. unfold fast_quotient. cbv zeta.
+  set (K := MB P + 1). assert (HK : 2 <= K) by (unfold K; lia).
+  set (a := Z.abs N). assert (Ha : 0 < a) by (unfold a; lia).
+  set (ns := blen a - 2 * K). set (ds := blen D - K).
+  set (numK := if 0 <=? ns then Z.abs (N / 2 ^ ns) else a * 2 ^ (- ns)).
+  set (denK := if 0 <=? ds then D / 2 ^ ds else D * 2 ^ (- ds)).
+  destruct (blen_bounds a Ha) as [[N1 N2] N3]. destruct (blen_bounds D HD) as [[D1 D2] D3].
+  set (S := 2 ^ Z.max ns 0). set (A := a * 2 ^ Z.max (- ns) 0).
+  set (T := 2 ^ Z.max ds 0). set (Dd := D * 2 ^ Z.max (- ds) 0).
+  assert (PS : 0 < S) by (apply pow2_pos; lia). assert (PT : 0 < T) by (apply pow2_pos; lia).
+  assert (PA : 0 < A) by (apply Z.mul_pos_pos; [lia | apply pow2_pos; lia]).
+  (* the shifted numerator *)
+  assert (HA : (numK - 1) * S < A < (numK + 1) * S /\ 0 <= numK <= 2 ^ (2 * K)).
+  { unfold numK, S, A. destruct (Z.leb_spec 0 ns) as [Hs|Hs].
+    - rewrite Z.max_l, (Z.max_r (- ns) 0) by lia. rewrite Z.pow_0_r, Z.mul_1_r.
+      pose proof (pow2_pos ns Hs) as Pns.
+      pose proof (abs_div_bracket N (2 ^ ns) Pns) as [B1 B2]. fold a in B1, B2.
+      split; [split; assumption|]. split; [lia|].
+      assert (E : 2 ^ blen a = 2 ^ (2 * K) * 2 ^ ns) by (rewrite <- pow2_split by lia; f_equal; unfold ns; lia).
+      assert (Hlt : (Z.abs (N / 2 ^ ns) - 1) * 2 ^ ns < 2 ^ (2 * K) * 2 ^ ns) by lia.
+      apply Z.mul_lt_mono_pos_r in Hlt; lia.
+    - rewrite Z.max_r, (Z.max_l (- ns) 0) by lia. rewrite Z.pow_0_r.
+      pose proof (pow2_pos (- ns) ltac:(lia)) as Pn.
+      assert (E : 2 ^ (2 * K) = 2 ^ blen a * 2 ^ (- ns)) by (rewrite <- pow2_split by lia; f_equal; unfold ns; lia).
+      assert (0 <= a * 2 ^ (- ns)) by (apply Z.mul_nonneg_nonneg; lia).
+      split; [lia|]. split; [lia|]. rewrite E. apply Z.mul_le_mono_nonneg_r; lia. }
+  destruct HA as [HA HnumK].
+  assert (HDd : denK * T <= Dd < (denK + 1) * T /\ 2 ^ (K - 1) <= denK).
+  { unfold denK, T, Dd. destruct (Z.leb_spec 0 ds) as [Hs|Hs].
+    - rewrite Z.max_l, (Z.max_r (- ds) 0) by lia. rewrite Z.pow_0_r, Z.mul_1_r.
+      pose proof (pow2_pos ds Hs) as Pds.
+      split; [apply div_bracket; exact Pds|]. apply Z.div_le_lower_bound; [lia|]. rewrite <- pow2_split by lia.
+      replace (ds + (K - 1)) with (blen D - 1) by (unfold ds; lia). lia.
+    - rewrite Z.max_r, (Z.max_l (- ds) 0) by lia. rewrite Z.pow_0_r, Z.mul_1_r.
+      pose proof (pow2_pos (- ds) ltac:(lia)). split; [lia|].
+      replace (K - 1) with (blen D - 1 + - ds) by (unfold ds; lia). rewrite pow2_split by lia.
+      apply Z.mul_le_mono_nonneg_r; lia. }
+  destruct HDd as [HDd HdenK].
+  pose proof (pow2_pos (K - 1) ltac:(lia)) as PK1.
+  (* the rounded quotient *)
+  pose proof (rne_quot_bracket numK denK ltac:(lia) ltac:(lia)) as Hman. cbv zeta in Hman.
+  set (man := if (2 * (numK mod denK) >? denK) || ((2 * (numK mod denK) =? denK) && Z.odd (numK / denK))
+              then numK / denK + 1 else numK / denK) in *.
+  destruct Hman as [Hman Hman0].
+  pose proof (fast_core K HK numK denK man A S Dd T PS PT PA HdenK HnumK HA HDd Hman Hman0) as LU.
+  (* back to N, D and the exponent ns - ds *)
+  assert (PY : 0 < Dd * S).
+  { apply Z.mul_pos_pos; [|lia]. assert (0 < denK * T) by (apply Z.mul_pos_pos; lia). lia. }
+  replace (2 * (A * T)) with (2 * (A * T)) in LU by reflexivity.
+  destruct (Z.leb_spec 0 (ns - ds)) as [He|He].
+  - assert (Eid : A * T * (D * 2 ^ (ns - ds)) = a * (Dd * S)).
+    { unfold A, T, Dd, S.
+      replace (a * 2 ^ Z.max (- ns) 0 * 2 ^ Z.max ds 0 * (D * 2 ^ (ns - ds)))
+        with (a * D * (2 ^ Z.max (- ns) 0 * 2 ^ Z.max ds 0 * 2 ^ (ns - ds))) by ring.
+      rewrite (fast_pow_id1 ns ds He). ring. }
+    pose proof (pow2_pos (ns - ds) He) as Pe. assert (Pc : 0 < D * 2 ^ (ns - ds)) by (apply Z.mul_pos_pos; lia).
+    exact (scale_back _ _ (A * T) (Dd * S) (D * 2 ^ (ns - ds)) a PY Eid LU Pc).
+  - assert (Eid : A * T * D = a * 2 ^ (- (ns - ds)) * (Dd * S)).
+    { unfold A, T, Dd, S.
+      replace (a * 2 ^ Z.max (- ns) 0 * 2 ^ Z.max ds 0 * D) with (a * D * (2 ^ Z.max (- ns) 0 * 2 ^ Z.max ds 0)) by ring.
+      rewrite (fast_pow_id2 ns ds He). ring. }
+    replace (2 * a * 2 ^ (- (ns - ds))) with (2 * (a * 2 ^ (- (ns - ds)))) by ring.
+    exact (scale_back _ _ (A * T) (Dd * S) D (a * 2 ^ (- (ns - ds))) PY Eid LU HD).
+Qed.
+
+Theorem fast_quotient_bound_f32 N D : N <> 0 -> 0 < D ->
+  let '(man, ex) := fast_quotient P32 N D in
+  if 0 <=? ex then (2 * man - 9) * (D * 2 ^ ex) < 2 * Z.abs N < (2 * man + 2) * (D * 2 ^ ex)
+  else (2 * man - 9) * D < 2 * Z.abs N * 2 ^ (- ex) < (2 * man + 2) * D.
+Proof. intros. apply fast_quotient_bound; [cbn; lia | assumption | assumption]. Qed.
+
+Theorem fast_quotient_bound_f64 N D : N <> 0 -> 0 < D ->
+  let '(man, ex) := fast_quotient P64 N D in
+  if 0 <=? ex then (2 * man - 9) * (D * 2 ^ ex) < 2 * Z.abs N < (2 * man + 2) * (D * 2 ^ ex)
+  else (2 * man - 9) * D < 2 * Z.abs N * 2 ^ (- ex) < (2 * man + 2) * D.
+Proof. intros. apply fast_quotient_bound; [cbn; lia | assumption | assumption]. Qed.
+
+Example fast_quotient_examples :
+  fast_quotient P32 (-4486) 73509287 = (16774784, -38) /\ fast_quotient P32 22 7 = (13182098, -22).
+Proof. vm_compute. split; reflexivity. Qed.
